@@ -375,3 +375,29 @@ package meta
 //@   ensures result ==> (forall m :: 1 <= m && m < len(core.Sub) - 1 ==> plainLit(core.Sub[m]))
 //@   loop 2: invariant -1 <= rangeindex && rangeindex < rangelen && rangelen == len(core.Sub) - 2 && core != nil && core.Op == 18 && len(core.Sub) >= 2 && core.Sub[0].Op == 14 && (core.Sub[0].Flags & 32) == 0 && len(core.Sub[0].Sub) == 1 && core.Sub[0].Sub[0].Op == 5 && re == core
 //@   loop 2: invariant forall m :: 1 <= m && m <= rangeindex + 1 ==> plainLit(core.Sub[m])
+
+// ---- C10: the DFA strategies are leftmost-first; in longest (POSIX) mode they must hand over to the NFA simulation ----
+//@ func (*Engine).findIndicesDFA
+//@   props C10
+//@   opt safety=off
+//@   requires e != nil
+//@   modifies @searchState
+//@   ghost viaNFA = false
+//@   after call Search#*: ghost viaNFA = true
+//@   ensures old(e.longest) ==> viaNFA
+//@ func (*Engine).findIndicesDFAAt
+//@   props C10
+//@   opt safety=off
+//@   requires e != nil
+//@   modifies @searchState
+//@   ghost viaNFA = false
+//@   after call SearchAt: ghost viaNFA = true
+//@   ensures old(e.longest) ==> viaNFA
+//@ func (*Engine).findIndicesDFAAtWithState
+//@   props C10
+//@   opt safety=off
+//@   requires e != nil
+//@   modifies @searchState
+//@   ghost viaNFA = false
+//@   after call SearchAt: ghost viaNFA = true
+//@   ensures old(e.longest) ==> viaNFA
